@@ -9,6 +9,8 @@ def _tag(line, out):
     fmt = line.split(" ", 1)[0]
     res = out.split(" ", 1)[0]
     t = fmt + ":" + res
+    if " w:" in line:
+        t += "+write-fault"
     return t
 
 
@@ -23,6 +25,11 @@ def run(ctx):
         "the correspondence run has CAP_DAC_OVERRIDE (root) or, if not, restricts modes/masks to owner-rwx so that "
         "permission bits never make a system call fail; umask is set to 0 by the harness",
         "no concurrent modification of the destination during extraction",
+    ]
+    ctx.modelled += [
+        "faults: truncated tar stream (tar.Writer output cut after k payload bytes), unreadable tar header, zip CRC "
+        "mismatch (payload byte flipped), and failed writes (RLIMIT_FSIZE set by the harness around the extraction: "
+        "the kernel writes up to the limit, then EFBIG)",
     ]
     ctx.lean(props=["Props.C19"], drivers=["drv_c19"])
     ctx.harness("./cmd/c19")
